@@ -5,6 +5,7 @@ import copy as _copy
 import json
 import os
 import pickle
+import re
 import zlib
 
 import numpy as np
@@ -16,6 +17,7 @@ CFG = """SPECIFICATION Spec
 CONSTANTS Obj = {%(obj)s}
  D = %(D)d
  Dev = {%(dev)s}
+ Family = {%(family)s}
  KeepFamily = {%(keep)s}
 INVARIANT CopyPreserves
 INVARIANT Contiguous
@@ -140,7 +142,16 @@ def _via_file(t, ext):
     tr = md.Trajectory(xyz, t)
     p = os.path.join(_env["dir"], "c04-%d.%s" % (os.getpid(), ext))
     tr.save(p)
-    back = md.load(p).topology
+    how = _env.get("reader", 0) % 4
+    if ext == "h5" and how == 1:
+        back = md.load_hdf5(p).topology
+    elif ext == "h5" and how == 2:
+        with md.open(p) as f:
+            back = f.topology
+    elif how == 3:
+        back = md.load_frame(p, 0).topology
+    else:
+        back = md.load(p).topology
     os.unlink(p)
     return back
 
@@ -148,7 +159,9 @@ def _via_file(t, ext):
 def _replay(task):
     import mdtraj as md
     tr, variant = task
+    _env["reader"] = variant
     objs = {1: _t0()}
+    edited = set()
     hist = tr["hist"]
     for k, s in enumerate(hist):
         op, x, y, dst, arg = s["op"], s["x"], s["y"], s["dst"], s["arg"]
@@ -192,12 +205,16 @@ def _replay(task):
             for i, t in objs.items():
                 if i != x and alpha(t) != before[i]:
                     return dict(step=k, problems=["editing object %d (%s) changed the value of object %d" % (x, op, i)])
+        if op in ("delete_atom", "add_bond"):
+            edited.add(x)
+        if op not in ("delete_atom", "add_bond") and dst in edited:
+            edited.discard(dst)          # the slot now holds a fresh object
         if not last:
             continue
         probs = []
         for i, t in objs.items():
-            if op in ("delete_atom", "add_bond") and i == x:
-                continue
+            if i in edited:
+                continue       # an edited topology is a probe: the property constrains the OTHER objects, not the edit itself
             sp = tr["post"][i - 1]
             if not sp["live"]:
                 continue
@@ -205,13 +222,13 @@ def _replay(task):
             if d:
                 probs += ["%s lost/changed by %s (object %d)" % (f, op if i == dst else "history", i) for f in d]
         if op not in ("delete_atom", "add_bond"):
-            ip = _identity_problems(objs)
+            ip = _identity_problems({i: t for i, t in objs.items() if i not in edited})
             if ip:
                 probs.append(ip)
             # equality and hash: value-preserving transformations give a topology that compares and hashes equal
             for i in objs:
                 for j in objs:
-                    if i < j:
+                    if i < j and i not in edited and j not in edited:
                         try:
                             eq = objs[i] == objs[j]
                             if eq and hash(objs[i]) != hash(objs[j]):
@@ -243,19 +260,24 @@ def _feat(t):
     return tuple(s["op"] for s in t["hist"])
 
 
-def _emit(ctx, obj, D, dev, keep=""):
-    r = ctx.tlc("Topology", "Topology_%s_D%d_%s.cfg" % (obj.replace(",", ""), D, "dev" if dev else "ideal"), workers=16, timeout=2400,
-                must_pass=not dev, cfg_text=CFG % dict(obj=obj, D=D, dev=", ".join('"%s"' % d for d in dev), keep=keep))
+ALL_OPS = '"copy", "deepcopy", "pickle", "subset", "join", "dataframe", "hdf5", "pdb", "delete_atom", "add_bond"'
+CARRIER_OPS = '"copy", "dataframe", "hdf5", "pdb", "delete_atom", "add_bond"'
+
+
+def _emit(ctx, obj, D, dev, keep="", family=ALL_OPS):
+    r = ctx.tlc("Topology", "Topology_%s_D%d_%s_%d.cfg" % (obj.replace(",", ""), D, "dev" if dev else "ideal", len(family)), workers=16, timeout=2400,
+                must_pass=not dev, cfg_text=CFG % dict(obj=obj, D=D, dev=", ".join('"%s"' % d for d in dev), keep=keep, family=family))
     return r.tr
 
 
 def run(ctx):
     _env["dir"] = ctx.scratch
     FAM = "{0}, {4}, {1, 2}, {2, 3, 4}, {0, 1, 3}, {0, 1, 2, 3, 4}"
-    plans = [("1,2,3", 2, FAM)] if not ctx.thorough else [("1,2,3", 2, ""), ("1,2", 3, "")]
+    # (objects, depth, subset family, operation family); the depth-3 carrier plan reaches "load, edit the result, load again"
+    plans = [("1,2,3", 2, FAM, ALL_OPS), ("1,2,3", 3, FAM, CARRIER_OPS)] if not ctx.thorough else [("1,2,3", 2, "", ALL_OPS), ("1,2", 3, "", ALL_OPS), ("1,2,3", 3, FAM, CARRIER_OPS)]
     tests = []
-    for obj, D, fam in plans:
-        got = _emit(ctx, obj, D, [], fam)
+    for obj, D, fam, ops in plans:
+        got = _emit(ctx, obj, D, [], fam, ops)
         if not ctx.thorough and len(got) > 30000:
             got = stratified_sample(got, _feat, 30000, ctx.rng)
         elif ctx.thorough and len(got) > 400000:
@@ -273,27 +295,37 @@ def run(ctx):
         if st != "ok":
             val = dict(step=-1, problems=["%s: %s" % (st, str(val)[:200])])
         fails.append((t, val))
-    # ---- triage: carrier losses recorded as known findings must be reproduced exactly by the deviation-enabled spec ----
+    # ---- triage: carrier losses recorded as known findings must be reproduced exactly by the deviation-enabled specification:
+    # the failing histories are re-evaluated deterministically by TopologyEval.tla with Dev switched on ------------------------
     devs = sorted(set(k.split(":", 1)[1] for k in ctx.open_findings))
-    dev_expect = {}
+    dev_post = {}
     if fails and devs:
-        for obj, D, fam in plans:
-            for t in _emit(ctx, obj, D, devs, fam):
-                dev_expect[json.dumps(t["hist"], sort_keys=True)] = t
-    for t, val in fails:
+        tf = os.path.join(ctx.scratch, "topo-eval.json")
+        json.dump({"recs": [dict(id=n, hist=t[0]["hist"]) for n, (t, _) in enumerate(fails)]}, open(tf, "w"))
+        cfg = ("SPECIFICATION ESpec\nCONSTANTS Obj = {1,2,3}\n D = 9\n Dev = {%s}\n Family = {%s}\n KeepFamily = {}\nCHECK_DEADLOCK FALSE\n"
+               % (", ".join('"%s"' % d for d in devs), ALL_OPS))
+        r = ctx.tlc("TopologyEval", "TopologyEval.cfg", must_pass=False, workers=1, cfg_text=cfg, env={"TRACE_FILE": tf}, timeout=2400)
+        for line in r.prints:
+            m = re.match(r'<<"POST", (\d+), "(.*)">>$', line, re.S)
+            if m:
+                dev_post[int(m.group(1))] = json.loads(json.loads('"' + m.group(2) + '"'))
+    t2s = []
+    for n, (t, val) in enumerate(fails):
+        if n in dev_post:
+            t2 = dict(t[0]); t2["post"] = dev_post[n]
+            t2s.append((n, (t2, t[1])))
+    again = dict(zip([n for n, _ in t2s], pool.run_tasks(_replay, [x for _, x in t2s], workers=16, timeout=60, batch=16))) if t2s else {}
+    FLD = {"df_drops_chain_id": ("dataframe", "chain id"), "h5_drops_chain_id": ("hdf5", "chain id"),
+           "h5_drops_serial": ("hdf5", "serial"), "pdb_renumbers_serial": ("pdb", "serial")}
+    for n, (t, val) in enumerate(fails):
         key = None
-        d = dev_expect.get(json.dumps(t[0]["hist"], sort_keys=True))
-        if d is not None:
-            t2 = dict(t[0]); t2["post"] = d["post"]
-            st2, v2 = pool.run_tasks(_replay, [(t2, t[1])], workers=1, batch=1)[0]
-            if st2 == "ok" and v2 is None:
-                # which deviation explains it: named by the carrier of the lossy step and the field lost
-                for pr in val["problems"]:
-                    for dv in devs:
-                        fld = {"df_drops_chain_id": ("dataframe", "chain id"), "h5_drops_chain_id": ("hdf5", "chain id"),
-                               "h5_drops_serial": ("hdf5", "serial"), "pdb_renumbers_serial": ("pdb", "serial")}[dv]
-                        if fld[1] in pr and any(s["op"] == fld[0] for s in t[0]["hist"]):
-                            key = key or "%s:%s" % (fld[0], dv)
+        st2, v2 = again.get(n, ("no", "no"))
+        if st2 == "ok" and v2 is None:
+            for pr in val["problems"]:
+                for dv in devs:
+                    fld = FLD[dv]
+                    if fld[1] in pr and any(s["op"] == fld[0] for s in t[0]["hist"]):
+                        key = key or "%s:%s" % (fld[0], dv)
         hs = " ; ".join("%s(%s)" % (s["op"], ",".join(str(v) for v in (s["x"], s["y"], s["dst"], s["arg"]))) for s in t[0]["hist"])
         ctx.discrepancy(key, "[%s] -> %s" % (hs, "; ".join(val["problems"])[:300]), dict(task=[t[0], t[1]], observed=val),
                         cls="%s" % (val["problems"][0][:90]))
